@@ -83,3 +83,8 @@ PROPS["C08"] = dict(
     level_text="Totality by construction: every modelled entry point is a total Lean function whose only failure mode is an explicit error value (Go panics are checked primitives), with no_fault theorems per entry point; every run sweeps the near-valid and malformed streams of all parsers (valid checksums over degenerate content, empty bit arrays, extreme counts, heterogeneous JSON, truncated blocks) against the real code under a wall-clock limit and an allocation budget proportional to the input.",
     level_note="Trusted: Lean kernel + standard axioms. PARTIAL for the runtime clauses: termination/time and memory are properties of the Go runtime; the model proves fault-freedom and step bounds of the modelled logic, the harness measures time (20 s/case limit) and TotalAlloc (64 MiB + 4 KiB per input char). External decoders (wire, encoding/json, OpenBazaar jsonpb) are not modelled, only exercised.",
     assumptions=COMMON_ASSUME)
+PROPS["C20"] = dict(
+    race=True,
+    level_text="Lock skeletons of every exported bloom.Filter method and write sets of every gcs.Filter method are re-extracted from the Go source (go/ast) on every run and proved well-bracketed / empty by kernel evaluation; a generic Lean theorem over all interleavings shows well-bracketed methods are data-race free and linearizable in lock order. Supporting validation: every run stresses one shared filter from up to 32 goroutines under the Go race detector and compares the final bit array with the order-independent sequential result.",
+    level_note="Trusted: Lean kernel + standard axioms; the go/ast skeleton extractor (harness/facts.go); PARTIAL for the runtime: sync.Mutex, the scheduler and the Go memory model are assumed, a data race is a runtime event the model cannot exhibit; the race detector run is supporting evidence, not proof.",
+    assumptions=COMMON_ASSUME)
